@@ -27,7 +27,7 @@ TIERS = {
     "C05": {"quick": (12000, 75), "thorough": (400000, 1500)},
     "C16": {"quick": (8000, 75), "thorough": (240000, 1500)},
 }
-MAX_MINIMISED = 10
+MAX_MINIMISED = int(os.environ.get("VERIF_MAX_MIN", "10"))
 
 
 def load_profile(prop, **attrs):
@@ -177,21 +177,33 @@ def main():
 
     known = load_known()
     reported, known_seen, harness_bad = [], [], []
+    # write replay files, then confirm each in a fresh interpreter (in parallel)
+    prepared = []
     for k, v, m in zip(chosen, items, minimised):
         sig = json.loads(k)
         if m is None:
             harness_bad.append((sig, v))
+            print("HARNESS-ERROR violation of seed %s could not be reproduced by in-process replay: %s" % (v["seed"], k))
             continue
         path = write_replay(prop, v["seed"], a.tier, m["config"], m["ops"], m["violation"], sig)
-        if not a.no_verify:
-            r = subprocess.run([sys.executable, os.path.join(HERE, "check.py"), prop, "--replay", path, "--quiet-replay"],
-                               capture_output=True, text=True, timeout=600,
-                               env=dict(os.environ, PYTHONHASHSEED="0"))
-            want = "REPLAY signature=%s" % k
-            if r.returncode != 1 or want not in r.stdout:
-                harness_bad.append((sig, v))
-                print("HARNESS-ERROR non-reproducible replay %s (exit %s)\n%s\n%s" % (path, r.returncode, r.stdout[-2000:], r.stderr[-2000:]))
-                continue
+        prepared.append((k, v, m, sig, path))
+
+    def confirm(item):
+        k, v, m, sig, path = item
+        r = subprocess.run([sys.executable, os.path.join(HERE, "check.py"), prop, "--replay", path, "--quiet-replay"],
+                           capture_output=True, text=True, timeout=900, env=dict(os.environ, PYTHONHASHSEED="0"))
+        return r.returncode == 1 and ("REPLAY signature=%s" % k) in r.stdout, r
+    if a.no_verify or not prepared:
+        confirmed = [(True, None)] * len(prepared)
+    else:
+        from concurrent.futures import ThreadPoolExecutor
+        with ThreadPoolExecutor(max_workers=max(1, min(a.jobs, len(prepared)))) as tp:
+            confirmed = list(tp.map(confirm, prepared))
+    for (k, v, m, sig, path), (ok, r) in zip(prepared, confirmed):
+        if not ok:
+            harness_bad.append((sig, v))
+            print("HARNESS-ERROR non-reproducible replay %s (exit %s)\n%s\n%s" % (path, r.returncode, r.stdout[-2000:], r.stderr[-2000:]))
+            continue
         ent = next((e for e in known if known_match(e, prop, sig)), None)
         what = profile.describe(m["violation"])
         if ent is not None:
